@@ -198,6 +198,10 @@ func (repo *StoragePeerRepository) Load(ctx context.Context) error {
 			break
 		}
 
+		if _, exists := repo.lookup[peer.Address]; exists {
+			continue // each address is only held once
+		}
+
 		// Add peer
 		repo.list = append(repo.list, &peer)
 		repo.lookup[peer.Address] = &peer
